@@ -93,7 +93,7 @@ func (s *Solver) oneShot(lits []*Term, want []*Term) (satResult, []uint64) {
 		}
 		sb.WriteString("(get-value (" + q + "))\n")
 	}
-	for _, cmdline := range [][]string{{"cvc5", "--tlimit=60000", "--fp-exp"}, {"z3-new", "-in", "-T:60"}} {
+	for _, cmdline := range [][]string{{"cvc5", "--tlimit=60000", "--fp-exp"}, {"z3-new", "-in", "-T:60"}, {"z3", "-in", "-T:150"}} {
 		if cmdline[0] == "cvc5" {
 			cmdline = append(cmdline, "--lang=smt2", "-")
 		}
